@@ -9,7 +9,7 @@ def run(tier, seed):
     o2, f2 = images.obligations("C06"); obs += o2; fns += f2
     o3, f3 = rules.shift_mapping_obligations("C06"); obs += o3; fns += f3
     o4, m4 = faces.bisector_obligations("C06")
-    obs += [x for x in o4 if "labels_right_is_neighbour" in x.name or "neighbour_position" in x.name or "every_candidate" in x.name or x.expect_sat]; fns.append(m4)
+    obs += [x for x in o4 if "labels_right_is_neighbour" in x.name or "neighbour_position" in x.name or "every_candidate" in x.name or "loop_runs_over" in x.name or x.expect_sat]; fns.append(m4)
     o5, u5 = grid.right_loc_obligations("C06")
     obs += [x for x in o5 if "neighbour_is_generator_plus_shift" in x.name or x.expect_sat]; fns += [{"fn": u.label, "slice_sha": u.sha} for u in u5]
     o6, us = faces.face_init_obligations("C06")
